@@ -68,5 +68,5 @@ def run_shard(spec) -> Acc:
 
 
 def plan(tier, seed):
-    n = 150 if tier == "quick" else 4000
+    n = 400 if tier == "quick" else 4000
     return [{"shard": i, "n": n, "max_len": 14 if tier == "quick" else 40} for i in range(16)]
